@@ -121,8 +121,12 @@ where
         if n == 1 {
             self[0].clone()
         } else {
+            #[cfg(not(rust_ndarray_ndarray_stats_verif))]
             let mut rng = thread_rng();
+            #[cfg(not(rust_ndarray_ndarray_stats_verif))]
             let pivot_index = rng.gen_range(0..n);
+            #[cfg(rust_ndarray_ndarray_stats_verif)]
+            let pivot_index = crate::verif_hooks::choose_pivot(n);
             let partition_index = self.partition_mut(pivot_index);
             if i < partition_index {
                 self.slice_axis_mut(Axis(0), Slice::from(..partition_index))
@@ -264,8 +268,12 @@ fn _get_many_from_sorted_mut_unchecked<A>(
     }
 
     // We pick a random pivot index: the corresponding element is the pivot value
+    #[cfg(not(rust_ndarray_ndarray_stats_verif))]
     let mut rng = thread_rng();
+    #[cfg(not(rust_ndarray_ndarray_stats_verif))]
     let pivot_index = rng.gen_range(0..n);
+    #[cfg(rust_ndarray_ndarray_stats_verif)]
+    let pivot_index = crate::verif_hooks::choose_pivot(n);
 
     // We partition the array with respect to the pivot value.
     // The pivot value moves to `array_partition_index`.
